@@ -18,13 +18,14 @@ Theorem C20_ignores_unrequested : forall H children s d,
 Proof. exact on_data_ignored. Qed.
 Print Assumptions C20_ignores_unrequested.
 
-(* a delivery whose database write fails (bk.Set returns an error inside OnData), ANY state:
+(* a delivery that fails inside OnData — bk.Set of the i-th requester returns an error (k = None)
+   or that requester returns an error after registering n of its references (k = Some n) —, ANY state:
    the request stays outstanding, nothing that was outstanding is dropped, nothing is lost
    from the store, nothing is counted as resolved — so the hash is asked for again *)
-Theorem C20_failed_delivery_keeps_request : forall H children s d i bks,
+Theorem C20_failed_delivery_keeps_request : forall H children s d i k bks,
   find_req (pending s) (H d) = Some bks ->
-  let s' := fst (on_data_fail H children s d i) in
-  snd (on_data_fail H children s d i) = RFail /\
+  let s' := fst (on_data_fail H children s d i k) in
+  snd (on_data_fail H children s d i k) = RFail /\
   find_req (pending s') (H d) <> None /\
   (forall r, req_in (pending s) r -> req_in (pending s') r) /\
   (forall bk, In bk bks -> req_in (pending s') (bk, H d)) /\
@@ -37,7 +38,7 @@ Print Assumptions C20_failed_delivery_keeps_request.
    unchanged: such a failed delivery can be erased from a history, and every theorem below
    applies to the history without it *)
 Theorem C20_failed_first_write_noop : forall H children s d,
-  find_req (pending s) (H d) <> None -> on_data_fail H children s d 0 = (s, RFail).
+  find_req (pending s) (H d) <> None -> on_data_fail H children s d 0 None = (s, RFail).
 Proof. exact failed_first_write_noop. Qed.
 Print Assumptions C20_failed_first_write_noop.
 
